@@ -54,14 +54,27 @@ class TimingMap:
     ) -> List[BpmChangeSnap]:
         return reseat_bpm_changes_snap(bpm_changes_snap)
 
-    def offsets(self, snaps: List[Snap]) -> np.ndarray:
-        """Finds the offsets in ms for the specified snaps"""
+    def offsets(
+        self, snaps: List[Snap], bpm_changes_snap: List[BpmChangeSnap] = None
+    ) -> np.ndarray:
+        """Finds the offsets in ms for the specified snaps
+
+        Args:
+            snaps: Snaps to find the offsets of
+            bpm_changes_snap: The positions of the bpm changes, if they are
+                known exactly. By default, they are derived from the offsets,
+                which snaps them to the snapper's divisions.
+        """
 
         offsets: List[float] = []
         bc_i = -1
         snaps = np.array(snaps)
         sorter = snaps.argsort()
-        bcs_s = self.bpm_changes_snap()
+        bcs_s = (
+            self.bpm_changes_snap()
+            if bpm_changes_snap is None
+            else sorted(bpm_changes_snap, key=lambda x: x.snap)
+        )
 
         for snap in reversed(snaps[sorter]):
             while bcs_s[bc_i].snap > snap:
